@@ -155,3 +155,16 @@ Theorem C11_clustercidr_informer_coherence :
   w_synced w = true -> replay_c (w_ccache w) (w_cfeed w) = w_ccs w.
 Proof. intros po lab ops H w. exact (cc_sync _ (run_cohc po lab ops init_world cohc_init H)). Qed.
 Print Assumptions C11_clustercidr_informer_coherence.
+
+(* the deletion half, as a dichotomy: a fault-free run of the work item of a ClusterCIDR whose deletion was requested and
+   that carries the controller's finalizer, on the object as the API has it, either takes the finalizer off (the object is
+   gone when it carried no other) or writes nothing because the controller still sees dependants on the entry (or cannot
+   convert the selector) *)
+Theorem C11_partial_deleting_clustercidr_is_released_or_busy :
+  forall W m o,
+  w_ctl W = Some m -> find_cc (o_name o) (w_ccs W) = Some o -> o_deleting o = true -> has_str finalizer (o_fins o) = true ->
+  let W2 := fst (run_cc_sync W (o_name o) (Some o) UOk) in
+  ((forall o2, find_cc (o_name o) (w_ccs W2) = Some o2 -> has_str finalizer (o_fins o2) = false) /\ w_ctl W2 <> None) \/
+  (w_ccs W2 = w_ccs W /\ w_cfeed W2 = w_cfeed W /\ busy_at m o).
+Proof. exact run_cc_sync_deleting. Qed.
+Print Assumptions C11_partial_deleting_clustercidr_is_released_or_busy.
